@@ -39,8 +39,8 @@ func runL1(p *l1Profile) func(r *core.Run) *core.Violation {
 }
 
 func init() {
-	c10 := &l1Profile{Prop: "C10", Reimport: 2, Blocks: [2]int{8, 40}, MaxTx: 4, Periods: stdPeriods, Crash: 5,
-		W:       map[string]int{"create": 10, "deposit": 60, "send": 8, "propose": 4, "updProposer": 2, "params": 2, "recordBatch": 2, "multi": 6},
+	c10 := &l1Profile{Prop: "C10", Reimport: 2, Blocks: [2]int{8, 40}, MaxTx: 4, Periods: []time.Duration{time.Second, 1500 * time.Millisecond, 10 * time.Second, time.Hour}, Crash: 5,
+		W:       map[string]int{"create": 10, "deposit": 60, "send": 8, "propose": 6, "claim": 8, "updProposer": 2, "params": 2, "recordBatch": 2, "multi": 6},
 		RegFee:  true,
 		NonTriv: func(w *l1World) bool { return w.succ["deposit"] >= 2 && len(w.m.Bridges) >= 1 }}
 	core.Register(&core.Scenario{ID: "C10", Level: "exploration", Run: runL1(c10), Components: l1Components,
